@@ -215,6 +215,11 @@ def run(ctx: Ctx):
     report_op(ctx, "R09.a", HASH)
     ctx.rule("R09.b", "no function of the package writes process-global state (attributes of module-level functions/classes/modules, module-level containers, `global`)", floor=50)
     global_mutations(ctx, "R09.b")
+    # ... nor keeps results on the model or generator object between calls: the same text and options must give the same
+    # bytes whatever was asked of that object before (a memo filled by the first caller's options is handed to the next)
+    from .c12 import check_generator_purity
+
+    check_generator_purity(ctx, "R09.b", classes=(("ode.py", "ODE"), ("codegen/base.py", "CodeGenerator"), ("codegen/python.py", "PythonCodeGenerator"), ("codegen/c.py", "CCodeGenerator"), ("codegen/jax.py", "JaxCodeGenerator")))
     ctx.rule("R09.c", "no public function of the package modifies a caller-supplied argument in place (a list of options passed twice gives the same result twice)", floor=30)
     argument_mutations(ctx, "R09.c")
     ctx.rule("R09.d", "nothing on the load -> generate path draws on a per-process or per-call source (sympy.Dummy's global counter, id(), hash(), uuid, random, clocks, process ids)", floor=25)
